@@ -28,6 +28,7 @@ const (
 	actCommit actKind = 'M'
 	actStable actKind = 'K'
 	actInit   actKind = 'I'
+	actList   actKind = 'L' // directory listing; only recorded when it fails
 )
 
 type action struct {
@@ -41,6 +42,8 @@ type action struct {
 	isNil  bool
 	failed bool
 	scrub  bool // all-zero write / sync following only such writes: not counted
+	// a failed creation that left the empty, unallocated file behind
+	leftover bool
 }
 
 type pwrite struct {
@@ -55,6 +58,7 @@ type cfile struct {
 	dirDurable     bool
 	durableByScrub bool // dir entry durable only thanks to a scrub sync
 	onlyScrub      bool // pending holds only all-zero (scrub) writes
+	adopted        bool // holds a batch that was never fsynced but adopted at an Open
 }
 
 type crashFS struct {
@@ -72,6 +76,11 @@ type crashFS struct {
 	dupID       string
 	faultsFired map[string]int
 	maxCreate   uint64 // Create of a larger file fails with ENOSPC (0 = no limit)
+	events      map[string]int // coverage counters
+	// fault modes; in force only while a counted fault is armed (faultIn >= 0):
+	failDeletes  bool // every file deletion fails, the file stays
+	failList     bool // the next directory listing fails (one-shot)
+	createLeaves bool // a creation hit by the counted fault leaves the empty file behind
 	// base: the disk right after the last crash; acts are the actions since then,
 	// numbered from baseCount
 	base      *crashFS
@@ -131,13 +140,34 @@ func isAllZero(b []byte) bool {
 
 func (c *crashFS) ListDir(dir string) ([]string, error) {
 	c.mu.Lock()
+	if c.faultIn >= 0 && c.failList {
+		c.failList = false
+		c.acts = append(c.acts, &action{kind: actList, failed: true})
+		c.noteFired("L")
+		c.mu.Unlock()
+		return nil, errInjected
+	}
+	c.mu.Unlock()
+	return c.listNames(), nil
+}
+
+// listNames: the directory as the harness sees it (never fails)
+func (c *crashFS) listNames() []string {
+	c.mu.Lock()
 	defer c.mu.Unlock()
 	var names []string
 	for n := range c.files {
 		names = append(names, n)
 	}
 	sort.Strings(names)
-	return names, nil
+	return names
+}
+
+func (c *crashFS) noteFired(kind string) {
+	if c.faultsFired == nil {
+		c.faultsFired = map[string]int{}
+	}
+	c.faultsFired[kind]++
 }
 
 func (c *crashFS) Create(dir, name string, size uint64) (types.WritableFile, error) {
@@ -162,6 +192,13 @@ func (c *crashFS) Create(dir, name string, size uint64) (types.WritableFile, err
 		return nil, fmt.Errorf("create %s: %w", name, os.ErrExist)
 	}
 	if !c.record(a) {
+		if c.createLeaves {
+			// the file was created, its preallocation failed: an empty file stays
+			a.leftover = true
+			c.noteCreated(name)
+			c.files[name] = &cfile{}
+			c.noteFired("C-left")
+		}
 		return nil, errInjected
 	}
 	c.noteCreated(name)
@@ -178,6 +215,12 @@ func (c *crashFS) Delete(dir, name string) error {
 		a.failed = true
 		c.acts = append(c.acts, a)
 		return fmt.Errorf("delete %s: %w", name, os.ErrNotExist)
+	}
+	if c.faultIn >= 0 && c.failDeletes {
+		a.failed = true
+		c.acts = append(c.acts, a)
+		c.noteFired("D")
+		return errInjected
 	}
 	if !c.record(a) {
 		return errInjected
@@ -282,9 +325,21 @@ func (h *chandle) Sync() error {
 		return os.ErrNotExist
 	}
 	a := &action{kind: actSync, name: h.name, scrub: len(f.pending) > 0 && f.onlyScrub}
+	if a.scrub && f.adopted {
+		// recovery zeroed stale bytes behind an adopted batch: this fsync is the first
+		// one that batch ever gets
+		if h.fs.events == nil {
+			h.fs.events = map[string]int{}
+		}
+		h.fs.events["scrub_fsync_over_adopted_batch"]++
+		if h.fs.faultIn >= 0 {
+			h.fs.events["scrub_fsync_over_adopted_batch_fault_armed"]++
+		}
+	}
 	if !h.fs.record(a) {
 		return errInjected
 	}
+	f.adopted = false
 	f.synced = append([]byte(nil), f.data...)
 	f.pending = nil
 	if !f.dirDurable {
@@ -379,6 +434,28 @@ func (m *cmeta) SetStable(key, value []byte) error {
 
 func (m *cmeta) Close() error { return nil }
 
+// adoptPending: a process restart or a Close/Open cycle without power loss. Writes
+// whose fsync failed are still in the page cache and the next Open reads them; the
+// model treats them as synced from here on (Model.adopt_disk: an I/O error followed
+// by a restart and a later power loss is outside the model). The harness does the
+// same, so that the fsync of recovery's zeroStaleTail -- issued only when stale
+// bytes of an earlier, longer failed batch lie behind the recovered chain -- is an
+// uncounted scrub fsync whether or not such an adopted batch is in the file.
+func (c *crashFS) adoptPending() int {
+	c.mu.Lock()
+	defer c.mu.Unlock()
+	n := 0
+	for _, f := range c.files {
+		if len(f.pending) > 0 && !f.onlyScrub {
+			f.synced = append([]byte(nil), f.data...)
+			f.pending = nil
+			f.adopted = true
+			n++
+		}
+	}
+	return n
+}
+
 // ---- crash images ----------------------------------------------------------
 
 // snapshot deep-copies the durable bookkeeping (the base of later replays)
@@ -426,6 +503,10 @@ func (c *crashFS) imageAt(k int, keepFile, keepBatch map[string]bool, tornMask f
 			n++
 		}
 		if a.failed {
+			if a.leftover {
+				r.files[a.name] = &cfile{}
+				r.noteCreated(a.name)
+			}
 			continue
 		}
 		switch a.kind {
